@@ -22,6 +22,7 @@
 -/
 import Lumina.Model.ShwapId
 import Lumina.Model.Decoders
+import Lumina.Spec.C10
 
 namespace Lumina.Model.ShwapHasher
 open Lumina.Util Lumina.Model.Nmt Lumina.Model.Eds Lumina.Model.ShwapId Lumina.Model.Decoders
@@ -140,5 +141,39 @@ def getBlockContainer (decodeBlock : Bytes → Option (Bytes × Bytes)) (expecte
     match Cid.read cidBytes with
     | none => none
     | some cid => if cid ≠ expected then none else some container
+
+/-! ## the property's vocabulary instantiated (what the spec checker is evaluated with) -/
+
+def outOpt {α} : Out α → Option α
+  | .ok a => some a
+  | _ => none
+
+def outOk : Out Unit → Bool
+  | .ok _ => true
+  | _ => false
+
+/-- "the identifier decodes, the container decodes, a header is stored at the identifier's height and the container
+    verifies against its DAH" for one kind of block; the value is the identifier hash -/
+def Kind.allowed {Id C : Type} (K : Kind Id C) (decodeBlock : Bytes → Option (Bytes × Bytes)) (store : Nat → Option Dah)
+    (input : Bytes) : Option Bytes :=
+  Lumina.Spec.C10.allows (decodeBlock input) (fun b => (Cid.read b).bind (fun c => (K.ofCid c).toOption))
+    (fun id => mhBytes (K.toCid id)) K.height (fun id b => outOpt (K.decode id b)) store
+    (fun c id dah => outOk (K.verify c id dah))
+
+def knownCode (code : Nat) : Bool :=
+  code = ROW_ID_MULTIHASH_CODE || code = ROW_NAMESPACE_DATA_ID_MULTIHASH_CODE || code = SAMPLE_ID_MULTIHASH_CODE
+
+/-- the conjunction for the kind the multihash code selects -/
+def allowed (H : HashFn) (P : Params) (store : Nat → Option Dah) (code : Nat) (input : Bytes) : Option Bytes :=
+  if code = ROW_ID_MULTIHASH_CODE then (rowKind H P).allowed P.decodeBlock store input
+  else if code = ROW_NAMESPACE_DATA_ID_MULTIHASH_CODE then (rndKind H P).allowed P.decodeBlock store input
+  else (sampleKind H P).allowed P.decodeBlock store input
+
+/-- what is observed of an outcome -/
+def obsOf : Except MhErr Bytes → Lumina.Spec.C10.Obs
+  | .ok h => .hash h
+  | .error .unknownCode => .unknownCode
+  | .error .fatal => .err
+  | .error .panic => .panic
 
 end Lumina.Model.ShwapHasher
